@@ -93,7 +93,7 @@ def handleC20 : Handler := fun st toks =>
         | some l => some ("OK " ++ pairsOut l)
       | none => some "ERR parse"
     | none => some "ERR parse"
-  | ["linspace", a, b, n] => some ("OK " ++ floatsOut (linspaceEnd (fOfTok a) (fOfTok b) (nOfTok n)))
+  | ["linspace", a, b, n] => some ("OK " ++ floatsOut (linspaceEndF (fOfTok a) (fOfTok b) (nOfTok n)))
   -- curve <table> n xs… : ordinates looked up in the oracle table of the real leaf
   | "curve" :: name :: rest =>
     match takeFloats rest with
